@@ -203,6 +203,14 @@ int main(int argc, char **argv)
                 st = cgio_open_file(p, m, CGIO_FILE_NONE, &c);
                 if (st) printf("open err 0"); else printf("open ok %d", c);
                 dump_io();
+            } else if (sscanf(line, "new %d", &n) == 1) {
+                /* new <n>: create file F<n> afresh (ADF) and touch nothing else: ADF_Database_Open(NEW) leaves the file's first
+                   block in the write buffer that all ADF files share */
+                char p[700]; int st;
+                ipath(n, p); c = 0;
+                st = cgio_open_file(p, 'w', CGIO_FILE_ADF, &c);
+                if (st) printf("new err 0"); else printf("new ok %d", c);
+                dump_io();
             } else if (sscanf(line, "close %d", &c) == 1) {
                 int st = cgio_close_file(c);
                 printf("close %d", st); dump_io();
@@ -220,6 +228,34 @@ int main(int argc, char **argv)
                 if (!st) st = cgio_get_node_id(c, root, path, &idd);
                 if (!st) st = cgio_get_label(c, idd, label);
                 printf("walk %d %s", st ? 1 : 0, st ? "-" : label); dump_io();
+            } else if (sscanf(line, "put %d %d %d", &c, &n, &id) == 3) {
+                /* put <c> <k> <v>: (over)write the 24 x I4 node /D/P<k> of the file behind handle c with the value v */
+                double root = 0, idd = 0, pid = 0; char nm[40]; int st, q, buf[24]; cgsize_t dim = 24;
+                sprintf(nm, "P%d", n);
+                for (q = 0; q < 24; q++) buf[q] = id;
+                st = cgio_get_root_id(c, &root);
+                if (!st && cgio_get_node_id(c, root, "/D", &idd)) {          /* a file made by "new" has no /D yet */
+                    st = cgio_create_node(c, root, "D", &idd);
+                    if (!st) st = cgio_set_label(c, idd, "Fnew_t");
+                }
+                if (!st && cgio_get_node_id(c, idd, nm, &pid)) {
+                    st = cgio_create_node(c, idd, nm, &pid);
+                    if (!st) st = cgio_set_label(c, pid, "DataArray_t");
+                    if (!st) st = cgio_set_dimensions(c, pid, "I4", 1, &dim);
+                }
+                if (!st) st = cgio_write_all_data(c, pid, buf);
+                printf("put %d", st ? 1 : 0); dump_io();
+            } else if (sscanf(line, "chk %d %d", &c, &n) == 2) {
+                /* chk <c> <k>: read /D/P<k> back: "chk 0 <v>" when all 24 values are v, "chk 0 mixed:<first>:<last>" otherwise */
+                double root = 0, idd = 0; char path[40]; int st, q, same = 1, buf[24];
+                sprintf(path, "/D/P%d", n);
+                memset(buf, 0, sizeof buf);
+                st = cgio_get_root_id(c, &root);
+                if (!st) st = cgio_get_node_id(c, root, path, &idd);
+                if (!st) st = cgio_read_all_data_type(c, idd, "I4", buf);
+                for (q = 1; q < 24; q++) if (buf[q] != buf[0]) same = 0;
+                if (st) printf("chk 1 -"); else if (same) printf("chk 0 %d", buf[0]); else printf("chk 0 mixed:%d:%d", buf[0], buf[23]);
+                dump_io();
             } else if (sscanf(line, "get %d", &c) == 1) {
                 int ft = -1, st = cgio_get_file_type(c, &ft);
                 printf("get %d %d", st ? 1 : 0, st ? -1 : ft); dump_io();
